@@ -7,6 +7,7 @@ import (
 	"log/slog"
 	"reflect"
 	"strconv"
+	"strings"
 	"testing"
 	"testing/synctest"
 
@@ -943,10 +944,13 @@ func TestReplay(t *testing.T) {
 	for a := 0; a < n; a++ {
 		var r Result
 		switch {
-		case sc.Stage == "fork.fold/ref" || sc.Stage == "fold/ref":
+		case sc.Stage == "fork.fold/ref" || sc.Stage == "fold/ref" || strings.HasPrefix(sc.Stage, "deleg/"):
 			f := runFoldRef
 			if sc.Stage == "fold/ref" {
 				f = runPipeFoldRef
+			}
+			if strings.HasPrefix(sc.Stage, "deleg/") {
+				f = runDeleg
 			}
 			b := bubble.Run(t, func() { r.Msg = f(&sc) })
 			if r.Msg == "" {
